@@ -260,5 +260,35 @@ theorem noOverflow_of_B (ops : List Op) : ∀ a : Acc, noOverflowB a ops = true 
     simp only [Bool.and_eq_true] at h
     exact ⟨inRange_of_inRangeB a h.1.1, opOk_of_opOkB op h.1.2, ih _ h.2⟩
 
+theorem isRep_neg (y : F64) (h : F64.IsRep y) : F64.IsRep (F64.neg y) ∧ (F64.neg y).val = -y.val := by
+  obtain ⟨s, m, e, rfl⟩ := F64.exists_fin_of_isFinite y h.1
+  exact ⟨F64.IsRep.neg_fin s m e h, F64.neg_fin_val s m e⟩
+
+
+/-- histories without `+=` / `-=` are tracked **exactly** -/
+def noAdd : Op → Bool
+  | .add _ => false
+  | .sub _ => false
+  | _ => true
+
+theorem track_err_noAdd (ops : List Op) : ∀ (a : Acc) (v e : ℚ), 0 ≤ e → (∀ op ∈ ops, noAdd op = true) → (track a (v, e) ops).2 ≤ e := by
+  induction ops with
+  | nil => intro a v e _ _; exact le_refl _
+  | cons op ops ih =>
+    intro a v e he h
+    have hop := h op (by simp)
+    have hrest : ∀ o ∈ ops, noAdd o = true := fun o ho => h o (by simp [ho])
+    show (track (step a op) (trackStep a (v, e) op) ops).2 ≤ e
+    cases op with
+    | add y => simp [noAdd] at hop
+    | sub y => simp [noAdd] at hop
+    | set y => exact le_trans (ih _ _ 0 (le_refl _) hrest) he
+    | neg => exact ih _ _ _ he hrest
+    | rem y => exact ih _ _ _ he hrest
+    | nop => exact ih _ _ _ he hrest
+    | mulInt n => exact ih _ _ _ he hrest
+    | mulF y => exact ih _ _ _ he hrest
+
+
 end Accum
 end GeoVerif
